@@ -386,7 +386,7 @@ func init() {
 		Assume: []string{"encoding/json.Valid is the upper reference; the string-masking scanner (30 lines) is the lower one",
 			"pre-assembled native routines are exercised as shipped (AVX2 on this host; SSE via C13)"},
 		Run: func(c *ev.Ctx, r *ev.Report) {
-			nontriv := map[uint64]struct{}{}
+			nontriv := ev.NewHashSet(29)
 			evalDoc := func(doc0 []byte) {
 				// private exact-length copy: what lies behind the input is C05's subject
 				doc := append(make([]byte, 0, len(doc0)), doc0...)
@@ -413,7 +413,7 @@ func init() {
 				if any {
 					h := fnv.New64a()
 					h.Write(doc)
-					nontriv[h.Sum64()] = struct{}{}
+					nontriv.Add(h.Sum64())
 				}
 			}
 			// --- TOK
@@ -524,7 +524,7 @@ func init() {
 			// --- TOK last (the bulk of the work; cut by the internal deadline if the machine is slow)
 			run(gen.Tokens, nFull, "tok_full")
 			run(gen.TokensSmall, nSmall, "tok_small")
-			r.Distinct = int64(len(nontriv))
+			r.Distinct = nontriv.Len()
 			r.Sample(map[string]string{"api": "all", "doc": `[1,"a"`})
 			r.Sample(map[string]string{"api": "all", "doc": `"` + strings.Repeat("a", 32)})
 		},
